@@ -21,7 +21,7 @@ package main
 //
 // Read deadlines arrive as wall-clock instants (the code under test calls
 // SetReadDeadline(time.Now().Add(d))); the duration is recovered by rounding
-// time.Until(deadline) to a multiple of `quantum`.
+// time.Until(deadline) to a multiple of `quantum` (tolerates ±125 ms of scheduling skew).
 
 import (
 	"fmt"
@@ -34,7 +34,7 @@ import (
 	"gitee.com/Trisia/gotlcp/dtlcp"
 )
 
-const quantum = 50 * time.Millisecond
+const quantum = 250 * time.Millisecond // every timeout used by the cases is a multiple of 500 ms
 
 type faultKind int
 
@@ -256,7 +256,7 @@ func (e *vend) closeLocked() {
 	}
 }
 
-func (e *vend) LocalAddr() net.Addr               { return e.local }
+func (e *vend) LocalAddr() net.Addr                { return e.local }
 func (e *vend) SetDeadline(t time.Time) error      { return e.SetReadDeadline(t) }
 func (e *vend) SetWriteDeadline(t time.Time) error { return nil }
 func (e *vend) SetReadDeadline(t time.Time) error {
